@@ -17,7 +17,7 @@ import re
 import sys
 import time
 
-NAMES = ["a", "v1", "nova", "not_x"]
+NAMES = ["a", "v1", "nova", "not_x", "dev"]  # `dev` ends, `v1` starts with the letter that spells `or`
 LITERALS = ["True", "0", "'v'", "'a^b'", "1"]
 CMPS = ["==", "!=", ">", ">=", "<", "<="]
 VALUES = [True, False, 0, 1, "v", ""]
@@ -169,6 +169,9 @@ def run(budget, limit_s, seed):
     n_expr = n_cases = 0
     known = {"R7": 0, "R8": 0}
     samples = []
+    gp = guard_pairs()
+    if gp:
+        return {"expressions": 0, "cases": 30, "known_region_hits": known, "violation": gp}
     for e in itertools.chain(chains(), exprs(budget)):
         if time.time() - t0 > limit_s:
             break
@@ -213,8 +216,49 @@ def run(budget, limit_s, seed):
             "seconds": round(time.time() - t0, 1), "exhaustive": time.time() - t0 <= limit_s}
 
 
+def guard_pairs():
+    """cond and unless of ONE transition that differ only in the comparison operator are two different guards: the machine
+    is a valid definition and fires iff the first comparison holds and the second does not."""
+    import warnings
+    from statemachine import State, StateMachine
+    from statemachine.exceptions import TransitionNotAllowed
+    warnings.simplefilter("ignore")
+    import operator
+    ops = {"==": operator.eq, "!=": operator.ne, ">": operator.gt, ">=": operator.ge, "<": operator.lt, "<=": operator.le}
+    k = 0
+    for o1, o2 in itertools.permutations(ops, 2):
+        k += 1
+        ns = {"a": State(initial=True), "b": State(final=True)}
+        ns["go"] = ns["a"].to(ns["b"], cond=f"level {o1} threshold", unless=f"level {o2} threshold")
+        ns["level"], ns["threshold"] = 0, 0
+        try:
+            cls = type(f"Pair{k}", (StateMachine,), ns)
+            for lv, th in ((1, 2), (2, 2), (3, 2)):
+                sm = cls()
+                sm.level, sm.threshold = lv, th
+                try:
+                    sm.go()
+                    fired = True
+                except TransitionNotAllowed:
+                    fired = False
+                want = ops[o1](lv, th) and not ops[o2](lv, th)
+                if fired != want:
+                    return {"text": f"cond='level {o1} threshold', unless='level {o2} threshold'", "python": f"(level {o1} threshold) and not (level {o2} threshold)",
+                            "valuation": {"level": lv, "threshold": th}, "library": ("ok", fired), "python_eval": ("ok", want), "kind": "guard-pair"}
+        except Exception as e:  # noqa: BLE001
+            return {"text": f"cond='level {o1} threshold', unless='level {o2} threshold'", "python": "a valid definition", "valuation": {},
+                    "library": ("rejected/raised", f"{type(e).__name__}: {str(e)[:120]}"), "python_eval": ("ok", "accepted"), "kind": "guard-pair"}
+    return None
+
+
 REPLAY = '''"""Replay (C08 lexical layer): the real parse_boolean_expr disagrees with CPython's evaluation."""
 import sys
+if {kind!r} == "guard-pair":
+    sys.path.insert(0, "/verif")
+    from runtime import expr_enum
+    gp = expr_enum.guard_pairs()
+    print(gp)
+    sys.exit(1 if gp else 0)
 from statemachine.spec_parser import operator_mapping, parse_boolean_expr
 env = {env!r}
 text, py = {text!r}, {py!r}
@@ -237,7 +281,7 @@ if __name__ == "__main__":
         v = res["violation"]
         os.makedirs("/verif/replays", exist_ok=True)
         path = f"/verif/replays/C08-expr-{abs(hash(v['text'])) % 10**8}.py"
-        open(path, "w").write(REPLAY.format(env=v["valuation"], text=v["text"], py=v["python"]))
+        open(path, "w").write(REPLAY.format(env=v["valuation"], text=v["text"], py=v["python"], kind=v.get("kind", "expression")))
         res["replay"] = path
     print(json.dumps(res, default=str))
     sys.exit(1 if res["violation"] else 0)
